@@ -6,7 +6,8 @@
 (* Interface methods found by reflection; module TraceHdr is generated     *)
 (* from it), then `reset` lines and one `call` line per case:              *)
 (*   inputs   m, F (the fields that really are non-nil in the value        *)
-(*            built), custom, nilrecv; passed (the rendered arguments);    *)
+(*            built), custom, nilrecv; av (abstract argument values) and   *)
+(*            passed (the rendered arguments actually passed);             *)
 (*            prog (what the stub in m's field is programmed to return)    *)
 (*   outputs  calls (the stubs that ran, with the arguments they got),     *)
 (*            ctor (the constructor's invocations and the tag of the       *)
@@ -71,7 +72,8 @@ Step(e) ==
   /\ ToSet(e.F) \subseteq Methods
   /\ e.nilrecv => (e.F = <<>> /\ ~e.custom)
   /\ OwnFieldOnlyAt(e.m, ToSet(e.F), e.custom, e.nilrecv)
-  /\ Observed(e, e.m, Call(e.m, ToSet(e.F), e.custom, e.nilrecv))
+  \* the outcome is judged whatever the arguments were (e.av: the abstract argument values, <<>> if generated)
+  /\ Observed(e, e.m, CallWithArgs(e.m, ToSet(e.F), e.custom, e.nilrecv, e.av))
 
 TInit == l = 2
 TNext ==
